@@ -3,7 +3,9 @@ package main
 import (
 	"bytes"
 	"fmt"
+	"math/big"
 	"os"
+	"strings"
 	"time"
 
 	"github.com/ipfs/go-cid"
@@ -57,11 +59,12 @@ func fakeCid(i int) cid.Cid {
 // link describes one delegation of a generated chain
 type link struct {
 	iss, aud, sub int // principal indexes, sub = -1: undefined (powerline)
-	cmd      string
-	pol      []pstmt
-	nbfOff   *int64 // seconds relative to the run's reference instant
-	expOff   *int64
-	missing  bool // not in the store
+	cmd           string
+	pol           []pstmt
+	nbfOff        *int64 // seconds relative to the run's reference instant
+	expOff        *int64
+	expAbs        *int64 // absolute expiration in Unix seconds (for instants a Duration cannot reach)
+	missing       bool   // not in the store
 }
 
 type mapLoader map[cid.Cid]*delegation.Token
@@ -81,10 +84,13 @@ type chainCase struct {
 	links                  []link
 	hook                   int // 0 none, 1 failing, 2 replaces args with hookArgs
 	hookArgs               [][2]any
+	sealed                 bool // every delegation goes through ToSealed / FromSealed before it is loaded
+	warm                   bool // a first ExecutionAllowed with every delegation loadable precedes the observed call
 }
 
 type chainEnv struct {
 	c    *Ctx
+	keys []crypto.PrivKey
 	dids []did.DID
 	t0   time.Time
 	memo map[string]*delegation.Token
@@ -94,7 +100,24 @@ func optW(p *int64) W {
 	if p == nil {
 		return WNull
 	}
-	return WInt(*p * 1e9)
+	return bigNsW(*p)
+}
+
+// bigNsW: seconds -> nanoseconds as a wire integer of any size
+func bigNsW(sec int64) W {
+	v := new(big.Int).Mul(big.NewInt(sec), big.NewInt(1000000000))
+	if v.Sign() < 0 {
+		return W("i-" + new(big.Int).Neg(v).Text(16) + ";")
+	}
+	return W("i" + v.Text(16) + ";")
+}
+
+// expW: the expiration of a link relative to the run's reference instant, in nanoseconds
+func (e *chainEnv) expW(l link) W {
+	if l.expAbs != nil {
+		return bigNsW(*l.expAbs - e.t0.Unix())
+	}
+	return optW(l.expOff)
 }
 
 func didW(dids []did.DID, i int) W {
@@ -114,8 +137,11 @@ func buildArgs(kv [][2]any) *args.Args {
 	return a
 }
 
-func (e *chainEnv) mkDlg(l link) (*delegation.Token, error) {
-	key := fmt.Sprintf("%d|%d|%d|%s|%v|%v|%s", l.iss, l.aud, l.sub, l.cmd, l.nbfOff != nil, l.expOff != nil, string(polWire(l.pol)))
+func (e *chainEnv) mkDlg(l link, sealed bool) (*delegation.Token, error) {
+	key := fmt.Sprintf("%d|%d|%d|%s|%v|%v|%s|%v", l.iss, l.aud, l.sub, l.cmd, l.nbfOff != nil, l.expOff != nil, string(polWire(l.pol)), sealed)
+	if l.expAbs != nil {
+		key += fmt.Sprint("a", *l.expAbs)
+	}
 	if l.nbfOff != nil {
 		key += fmt.Sprint("n", *l.nbfOff)
 	}
@@ -139,7 +165,19 @@ func (e *chainEnv) mkDlg(l link) (*delegation.Token, error) {
 	if l.expOff != nil {
 		opts = append(opts, delegation.WithExpirationIn(time.Duration(*l.expOff)*time.Second))
 	}
+	if l.expAbs != nil && *l.expAbs > e.t0.Unix() {
+		opts = append(opts, delegation.WithExpiration(time.Unix(*l.expAbs, 0)))
+	} else if l.expAbs != nil {
+		// an instant in the past: the constructor only takes it as a distance from now
+		opts = append(opts, delegation.WithExpirationIn(-time.Since(time.Unix(*l.expAbs, 0))))
+	}
 	t, err := delegation.New(e.dids[l.iss], e.dids[l.aud], command.Command(l.cmd), pol, opts...)
+	if err == nil && sealed {
+		var b []byte
+		if b, _, err = t.ToSealed(e.keys[l.iss]); err == nil {
+			t, _, err = delegation.FromSealed(b)
+		}
+	}
 	if err == nil {
 		e.memo[key] = t
 	}
@@ -147,24 +185,28 @@ func (e *chainEnv) mkDlg(l link) (*delegation.Token, error) {
 }
 
 func (e *chainEnv) run(tag string, cc chainCase) {
-	ld := mapLoader{}
+	ld, full := mapLoader{}, mapLoader{}
 	var prf []cid.Cid
 	var storeW []W
 	for k, l := range cc.links {
 		ci := fakeCid(k)
 		prf = append(prf, ci)
-		if l.missing {
+		if l.missing && !cc.warm {
 			continue
 		}
-		t, err := e.mkDlg(l)
+		t, err := e.mkDlg(l, cc.sealed)
 		if err != nil {
 			fmt.Fprintln(os.Stderr, "mkDlg:", err)
 			return
 		}
+		full[ci] = t
+		if l.missing {
+			continue
+		}
 		ld[ci] = t
 		storeW = append(storeW, WList(WBytes(ci.Bytes()), WMap(
 			KV{"iss", didW(e.dids, l.iss)}, KV{"aud", didW(e.dids, l.aud)}, KV{"sub", didW(e.dids, l.sub)},
-			KV{"cmd", WStr(l.cmd)}, KV{"pol", polWire(l.pol)}, KV{"nbf", optW(l.nbfOff)}, KV{"exp", optW(l.expOff)})))
+			KV{"cmd", WStr(l.cmd)}, KV{"pol", polWire(l.pol)}, KV{"nbf", optW(l.nbfOff)}, KV{"exp", e.expW(l)})))
 	}
 	opts := []invocation.Option{invocation.WithArguments(buildArgs(cc.args))}
 	if cc.invAud >= 0 {
@@ -212,6 +254,17 @@ func (e *chainEnv) run(tag string, cc chainCase) {
 		KV{"cmd", WStr(cc.cmd)}, KV{"args", WNode(argsNode)}, KV{"prf", WList(prfW...)}, KV{"exp", optW(cc.expOff)})
 	var allowed bool
 	hookW := WNull
+	panicked := false
+	defer func() {
+		if r := recover(); r != nil {
+			panicked = true
+			e.c.Emit(tag, WList(WStr("exec"), invW, WList(storeW...), WInt(0), hookW), WPanic())
+		}
+	}()
+	_ = panicked
+	if cc.warm {
+		_ = inv.ExecutionAllowed(full)
+	}
 	switch cc.hook {
 	case 0:
 		allowed = inv.ExecutionAllowed(ld) == nil
@@ -251,8 +304,8 @@ func failStmts() []pstmt {
 }
 
 func genChain(c *Ctx) {
-	_, dids := detPrincipals(5)
-	e := &chainEnv{c: c, dids: dids, t0: time.Now(), memo: map[string]*delegation.Token{}}
+	keys, dids := detPrincipals(5)
+	e := &chainEnv{c: c, keys: keys, dids: dids, t0: time.Now(), memo: map[string]*delegation.Token{}}
 	cmds := []string{"/", "/a", "/a/b", "/ab", "/b"}
 
 	// ---- 1. exhaustive over principals: chains of length 1 and 2, every (iss, aud, sub) per link over 4
@@ -480,6 +533,121 @@ func genChain(c *Ctx) {
 						}
 					}
 					e.run("chain/cmd-lattice", chainCase{invIss: 0, invSub: L, invAud: -1, cmd: lower, args: stdArgs, links: links})
+				}
+			}
+		}
+	}
+
+	// ---- 3c. commands outside ASCII: siblings that only differ by case folding, parents and children
+	ulat := []string{"/αρχείο/λόγος", "/αρχείο/λόγοσ", "/αρχείο", "/é", "/é/b", "/éb", "/xσ", "/xς", "/xς/y", "/"}
+	for L := 1; L <= 2; L++ {
+		for pos := 0; pos < L; pos++ {
+			for _, upper := range ulat {
+				for _, lower := range ulat {
+					links := make([]link, L)
+					for k := 0; k < L; k++ {
+						links[k] = link{iss: k + 1, aud: k, sub: L, cmd: "/"}
+						if k == L-1 {
+							links[k].iss = L
+						}
+						switch {
+						case k == pos:
+							links[k].cmd = upper
+						case k < pos:
+							links[k].cmd = lower
+						}
+					}
+					e.run("chain/cmd-unicode", chainCase{invIss: 0, invSub: L, invAud: -1, cmd: lower, args: stdArgs, links: links, sealed: pos == 0})
+				}
+			}
+		}
+	}
+
+	// ---- 3d. statements over text: slices of strings by character (negative and open bounds, text outside
+	// ASCII, long text), like patterns whose literal parts overlap in the data; each at every link of a
+	// 3-link chain, through sealed delegations; the same (memoised) delegations then meet arguments of other lengths
+	textArgs := func(v int) [][2]any {
+		switch v {
+		case 0:
+			return [][2]any{{"name", "機密-budget.xlsx"}, {"file", "café.png"}, {"bio", strings.Repeat("привет мир ", 6)}, {"path", "/backup/latest.tar"},
+				{"user", "admin-admin"}, {"host", "api.eu.eu.example.com"}, {"to", []any{"a@example.com", "b@example.com"}}}
+		case 1:
+			return [][2]any{{"name", "né-budget"}, {"file", "a.png"}, {"bio", "abc"}, {"path", "/backup/x/backup/latest.tar"},
+				{"user", "admin-x-admin"}, {"host", "aaab"}, {"to", []any{"a@example.com", "b@example.com", "c@evil.org"}}}
+		default:
+			return [][2]any{{"name", "機密"}, {"file", "né.jpeg"}, {"bio", strings.Repeat("ö", 50)}, {"path", "/backup/"},
+				{"user", "admin-"}, {"host", ".eu.example.com"}, {"to", []any{"x@example.com"}}}
+		}
+	}
+	textStmts := []pstmt{
+		{kind: "==", sel: ".file[:-4]", val: J(`"café"`)}, {kind: "==", sel: ".name[0:2]", val: J(`"機密"`)},
+		{kind: "not", subs: []pstmt{{kind: "==", sel: ".name[0:2]", val: J(`"機密"`)}}},
+		{kind: "==", sel: ".bio[10:12]", val: J(`" п"`)}, {kind: "==", sel: ".bio[-3:]", val: J(`"ир "`)}, {kind: "like", sel: ".bio[40:]", pat: "*"},
+		{kind: "like", sel: ".path", pat: "/backup/*/backup/latest.tar"}, {kind: "like", sel: ".user", pat: "admin-*-admin"},
+		{kind: "like", sel: ".host", pat: "*.eu.example.com"}, {kind: "like", sel: ".host", pat: "api*.eu.example.com"}, {kind: "like", sel: ".host", pat: "*aab"},
+		{kind: "all", sel: ".to[1:]", subs: []pstmt{{kind: "like", sel: ".", pat: "*@example.com"}}},
+		{kind: "any", sel: ".to[:-1]", subs: []pstmt{{kind: "like", sel: ".", pat: "b@*"}}},
+		{kind: "==", sel: ".file[1:][1:]", val: J(`"fé.png"`)}, {kind: "==", sel: ".file[2:][:2]", val: J(`"fé"`)},
+	}
+	for round := 0; round < 2; round++ {
+		for v := 0; v < 3; v++ {
+			for si, st := range textStmts {
+				for pos := 0; pos < 3; pos++ {
+					links := make([]link, 3)
+					for k := 0; k < 3; k++ {
+						links[k] = link{iss: k + 1, aud: k, sub: 3, cmd: "/"}
+						if k == 2 {
+							links[k].iss = 3
+						}
+					}
+					links[pos].pol = []pstmt{st}
+					if (si+pos)%2 == 0 {
+						links[(pos+1)%3].pol = []pstmt{{kind: "like", sel: ".file", pat: "*"}}
+					}
+					e.run("chain/text-policy", chainCase{invIss: 0, invSub: 3, invAud: -1, cmd: "/a", args: textArgs(v), links: links, sealed: true})
+				}
+			}
+		}
+	}
+
+	// ---- 3e. the decision is a function of the loader of that call: a second call on the same invocation
+	// with a loader that lacks one of the delegations (the first call could load them all)
+	for L := 1; L <= 3; L++ {
+		for miss := 0; miss < L; miss++ {
+			links := make([]link, L)
+			for k := 0; k < L; k++ {
+				links[k] = link{iss: k + 1, aud: k, sub: L, cmd: "/"}
+				if k == L-1 {
+					links[k].iss = L
+				}
+			}
+			e.run("chain/second-call", chainCase{invIss: 0, invSub: L, invAud: -1, cmd: "/a", args: stdArgs, links: links, warm: true})
+			links2 := append([]link{}, links...)
+			links2[miss].missing = true
+			e.run("chain/second-call-missing", chainCase{invIss: 0, invSub: L, invAud: -1, cmd: "/a", args: stdArgs, links: links2, warm: true})
+		}
+	}
+
+	// ---- 3f. bounds at the ends of the representable range, through sealed delegations: expiration at the
+	// epoch (0), one second after it, "never" as 9999-12-31, and the largest timestamp the wire allows
+	for _, ab := range []struct {
+		name string
+		off  *int64
+		abs  *int64
+	}{{"epoch", nil, i64(0)}, {"epoch+1", nil, i64(1)}, {"epoch-1", nil, i64(-1)}, {"year9999", nil, i64(253402300799)}, {"year2500", nil, i64(16725225600)},
+		{"max53", nil, i64(9007199254740991)}, {"in-1h", i64(3600), nil}} {
+		for L := 1; L <= 2; L++ {
+			for pos := 0; pos < L; pos++ {
+				for _, sealed := range []bool{false, true} {
+					links := make([]link, L)
+					for k := 0; k < L; k++ {
+						links[k] = link{iss: k + 1, aud: k, sub: L, cmd: "/"}
+						if k == L-1 {
+							links[k].iss = L
+						}
+					}
+					links[pos].expOff, links[pos].expAbs = ab.off, ab.abs
+					e.run("chain/extreme-exp/"+ab.name, chainCase{invIss: 0, invSub: L, invAud: -1, cmd: "/a", args: stdArgs, links: links, sealed: sealed})
 				}
 			}
 		}
